@@ -538,6 +538,87 @@ def rule_one_shot_iterators(ck: Check, rule: str, files: Sequence[str]) -> None:
         ck.ok(rule, "no loop resizes the container it iterates", "", "")
 
 
+def rule_decorators_followed(ck: Check, rule: str, files: Sequence[str]) -> None:
+    """premise of every rule that reads a function from its `def`: nothing wrapped around the function changes what it does. The
+    repository's own decorators of the simple wrapper shape are expanded at load time (engine/deccanon.py); builtin ones are understood;
+    `lru_cache` is accepted on a function of its arguments alone; anything else cannot be analysed."""
+    from ..engine.deccanon import unfollowed_decorators, canon_decorators
+    ctl = ast.parse("def deco(fn):\n    def w(self, *a, **k):\n        with self.lock:\n            return fn(self, *a, **k)\n    return w\n"
+                    "class C:\n    @deco\n    def m(self, x):\n        return x\n")
+    canon_decorators([ctl])
+    m = ctl.body[1].body[0]       # type: ignore[attr-defined]
+    if m.decorator_list or not isinstance(m.body[0], ast.With) or unfollowed_decorators(ast.parse("@foo\ndef f(): pass\n")) == []:
+        ck.unknown(rule, "positive control", "the decorator expansion did not behave on its control snippet")
+        return
+    n = bad = 0
+    mutable_globals: Dict[str, Set[str]] = {}
+    for m_ in ck.repo.modules.values():
+        rel = m_.path.replace(ck.repo.root + "/", "")
+        if rel not in files and not any(m_.path.endswith(f) for f in files):
+            continue
+        muts = set()
+        for st in m_.tree.body:
+            if isinstance(st, (ast.Assign, ast.AnnAssign)) and st.value is not None and \
+                    isinstance(st.value, (ast.Dict, ast.List, ast.Set, ast.ListComp, ast.DictComp, ast.SetComp)) or \
+                    (isinstance(st, (ast.Assign, ast.AnnAssign)) and isinstance(st.value, ast.Call) and isinstance(st.value.func, ast.Name)
+                     and st.value.func.id in ("dict", "list", "set", "defaultdict", "OrderedDict", "deque", "Counter")):
+                tg = st.targets if isinstance(st, ast.Assign) else [st.target]
+                for t in tg:
+                    muts |= {x.id for x in ast.walk(t) if isinstance(x, ast.Name)}
+        mutable_globals[m_.name] = muts
+        for node in ast.walk(m_.tree):
+            if not isinstance(node, (ast.FunctionDef, ast.AsyncFunctionDef, ast.ClassDef)):
+                continue
+            n += 1
+        for name, dec, line in unfollowed_decorators(m_.tree):
+            loc = "%s:%d" % (m_.path, line)
+            if dec.split(".")[-1] in ("lru_cache", "cache"):
+                fn = next((x for x in ast.walk(m_.tree) if isinstance(x, ast.FunctionDef) and x.name == name
+                           and any(getattr(d, "lineno", -1) == line for d in x.decorator_list)), None)
+                why = _not_memoisable(fn, muts) if fn is not None else "definition not found"
+                if why is None:
+                    continue
+                bad += 1
+                ck.violated(rule, "%s: memoised results are those a fresh call would give" % name,
+                            "@%s on a function whose result does not depend on its arguments alone — %s: later calls get the answer "
+                            "computed for an earlier state" % (dec, why), loc)
+                continue
+            bad += 1
+            ck.unknown(rule, "%s: decorator @%s" % (name, dec),
+                       "the decorator is neither a builtin one nor of the wrapper shape the analysis expands — what the decorated function "
+                       "does cannot be read from its definition", loc)
+    if not bad:
+        ex = getattr(ck.repo, "decorators_expanded", {}) or {}
+        ck.ok(rule, "every decorator in the property's files is understood",
+              "%d definitions scanned%s" % (n, ("; expanded: " + ", ".join("%s (%s)" % kv for kv in sorted(ex.items()))) if ex else ""), "")
+    ck.stats["definitions scanned for decorators"] = n
+
+
+def _not_memoisable(fn: ast.FunctionDef, mutable_globals: Set[str]) -> Optional[str]:
+    params = [a.arg for a in fn.args.args]
+    if params and params[0] == "self":
+        return "it is a method: the object's state is part of the answer but not of the cache key"
+    if fn.args.vararg is None and not params and not fn.args.kwonlyargs:
+        return "it takes no arguments: one answer for ever"
+    local = set(params) | {a.arg for a in fn.args.kwonlyargs} | {n.id for n in ast.walk(fn) if isinstance(n, ast.Name) and isinstance(n.ctx, ast.Store)}
+    for n in ast.walk(fn):
+        if isinstance(n, (ast.Global, ast.Nonlocal)):
+            return "it declares %s" % ", ".join(n.names)
+        if isinstance(n, ast.Name) and isinstance(n.ctx, ast.Load) and n.id in mutable_globals and n.id not in local:
+            return "it reads the mutable module-level `%s`" % n.id
+        if isinstance(n, ast.Call) and isinstance(n.func, ast.Attribute) and n.func.attr in ("time", "now", "random", "randint", "urandom", "token_bytes"):
+            return "it calls %s()" % n.func.attr
+        if isinstance(n, ast.Call) and isinstance(n.func, ast.Name) and n.func.id in ("open", "input"):
+            return "it calls %s()" % n.func.id
+    # arguments that are mutable objects whose state the function reads: annotated as CoinState / Block ... are immutable here; lists /
+    # dicts / the managers are not
+    for a in fn.args.args + fn.args.kwonlyargs:
+        ann = ast.unparse(a.annotation) if a.annotation is not None else ""
+        if any(t in ann for t in ("List", "Dict", "Set[", "list", "dict", "Manager", "LocalPeer", "Wallet", "RemotePeer", "BinaryIO", "IO[")):
+            return "the argument `%s: %s` is a mutable object" % (a.arg, ann)
+    return None
+
+
 def partial_on_empty(fn: ast.AST) -> List[Tuple[int, str]]:
     """max(xs) / min(xs) / next(it) without a default, where nothing on the way establishes that xs is non-empty: they raise on an empty
     argument. (line, text)"""
